@@ -46,6 +46,8 @@ def digest(data):
 # the tree of saved forms of one (program text, level)
 
 class Tree(object):
+    TIMEOUT = 60         # seconds for one compiler command
+
     def __init__(self, build, root, text, level, dialect_args=(), lib_args=("-laxllib",), extra_files=None):
         self.b = build
         self.root = root
@@ -57,6 +59,7 @@ class Tree(object):
         self.nodes = {}
         self.finals = {}
         self.ncmd = 0
+        self.dead = None
         os.makedirs(root, exist_ok=True)
 
     def _dir(self, name):
@@ -66,9 +69,14 @@ class Tree(object):
             shutil.copy(src, os.path.join(d, fn))
         return d
 
-    def _aldor(self, args, d, timeout=60):
+    def _aldor(self, args, d, timeout=None):
+        if self.dead:        # the direct compilation at this level already failed: nothing else is attempted
+            return {"rc": None, "out": "", "err": "skipped: " + self.dead, "timeout": True, "cmd": "(skipped)", "dir": d}
         self.ncmd += 1
-        rc, out, err, to = vlib.aldor(self.b, self.dargs + [qopt(self.level)] + list(args), d, timeout=timeout)
+        rc, out, err, to = vlib.aldor(self.b, self.dargs + [qopt(self.level)] + list(args), d, timeout=timeout or self.TIMEOUT)
+        if to and not any(a.endswith(".as") for a in args):
+            # a reload normally takes a fraction of a second: a timeout is reported only if a patient second attempt repeats it
+            rc, out, err, to = vlib.aldor(self.b, self.dargs + [qopt(self.level)] + list(args), d, timeout=4 * (timeout or self.TIMEOUT))
         return {"rc": rc, "out": out.decode(errors="replace"), "err": err.decode(errors="replace"), "timeout": to,
                 "cmd": "aldor %s %s" % (qopt(self.level), " ".join(args)), "dir": d}
 
@@ -171,7 +179,7 @@ class Tree(object):
                 f["res"] = r
             return f
         if kind == "run":
-            r = self._aldor(largs + ["-Ginterp", inp], d, timeout=60)
+            r = self._aldor(largs + ["-Ginterp", inp], d)
             r["phase"] = "interp"
             f["ok"] = True
             f["run"] = r
@@ -550,7 +558,18 @@ def diff_class(a, b):
     if la == lb:
         return "same-tokens-different-layout"
     if len(la) != len(lb):
-        return "token-count-differs"
+        import difflib
+        sm = difflib.SequenceMatcher(None, la, lb, autojunk=False)
+        casts = True
+        for tag, i1, i2, j1, j2 in sm.get_opcodes():
+            if tag == "equal":
+                continue
+            gone = la[i1:i2]
+            if not (tag == "delete" and len(gone) % 3 == 0 and
+                    all(gone[k] == "(" and re.match(r"^Fi[A-Za-z]+$", gone[k + 1]) and gone[k + 2] == ")" for k in range(0, len(gone), 3))):
+                casts = False
+                break
+        return "only-casts-missing" if casts else "token-count-differs"
     num = re.compile(r"^-?([0-9]+)L?$")
     for x, y in zip(la, lb):
         if x != y:
